@@ -1,1 +1,8 @@
--- C06: property theorems (to be filled in)
+/- C06 — property theorems -/
+import FaxVerif.C06.Proofs
+namespace FaxVerif.C06
+
+/-- the translator recognised every construct it read -/
+theorem source_recognised : Gen.unrecognised = [] := by decide
+
+end FaxVerif.C06
